@@ -542,21 +542,25 @@ theorem bag_starmap_den {γ : Type} (f : α → β → γ) (b : Bag (α × β)) 
 
 theorem bag_pluck_den (get : α → β) (b : Bag α) : den (pluckB get b) = (den b).map get := bag_map_den _ b
 
-theorem foldl_max_comm (l : List Int) (a c : Int) : l.foldl max (max a c) = max a (l.foldl max c) := by
+section NoInit
+variable (op : α → α → α) (assoc : ∀ a b c, op (op a b) c = op a (op b c))
+include assoc
+
+theorem foldl_assoc (l : List α) (a c : α) : l.foldl op (op a c) = op a (l.foldl op c) := by
   induction l generalizing c with
   | nil => rfl
-  | cons w l ih => simp only [List.foldl_cons]; rw [← ih]; congr 1; omega
+  | cons w l ih => simp only [List.foldl_cons]; rw [assoc, ih]
 
-theorem pyReduce_max_cons (v : Int) (vs : List Int) (m : Int) (h : pyReduce max vs = some m) :
-    pyReduce max (v :: vs) = some (max v m) := by
+theorem pyReduce_cons (v : α) (vs : List α) (m : α) (h : pyReduce op vs = some m) :
+    pyReduce op (v :: vs) = some (op v m) := by
   cases vs with
   | nil => simp [pyReduce] at h
   | cons w ws =>
     simp only [pyReduce, Option.some.injEq, List.foldl_cons] at h ⊢
-    rw [foldl_max_comm, h]
+    rw [foldl_assoc op assoc, h]
 
-theorem pyReduce_max_append (q₁ q₂ : List Int) (m₁ m₂ : Int) (h₁ : pyReduce max q₁ = some m₁)
-    (h₂ : pyReduce max q₂ = some m₂) : pyReduce max (q₁ ++ q₂) = some (max m₁ m₂) := by
+theorem pyReduce_append (q₁ q₂ : List α) (m₁ m₂ : α) (h₁ : pyReduce op q₁ = some m₁)
+    (h₂ : pyReduce op q₂ = some m₂) : pyReduce op (q₁ ++ q₂) = some (op m₁ m₂) := by
   cases q₁ with
   | nil => simp [pyReduce] at h₁
   | cons y ys =>
@@ -564,20 +568,22 @@ theorem pyReduce_max_append (q₁ q₂ : List Int) (m₁ m₂ : Int) (h₁ : pyR
     | nil => simp [pyReduce] at h₂
     | cons z zs =>
       simp only [pyReduce, Option.some.injEq, List.cons_append, List.foldl_append, List.foldl_cons] at h₁ h₂ ⊢
-      rw [foldl_max_comm, h₁, h₂]
+      rw [foldl_assoc op assoc, h₁, h₂]
 
-theorem pyReduce_ne_nil (q : List Int) (hq : q ≠ []) : ∃ m, pyReduce max q = some m := by
+omit assoc in
+theorem pyReduce_ne_nil (q : List α) (hq : q ≠ []) : ∃ m, pyReduce op q = some m := by
   cases q with
   | nil => exact absurd rfl hq
   | cons y ys => exact ⟨_, rfl⟩
 
-/-- **`max`** of a non-empty bag is `max(seq)` — any partitioning with empty partitions, any
-    `split_every ≥ 2` (for an empty bag the inner result is `none`: ValueError like `max([])`) -/
-theorem bag_max_eq (se : Nat) (hse : 2 ≤ se) (b : Bag Int) (hb : den b ≠ []) :
-    maxB se b = some (pyReduce max (den b)) := by
-  have hsome : (maxB se b).isSome := reductionIx_isSome _ _ se hse b
+/-- **`fold` without initial** with one associative operator for `binop` and `combine`: on a non-empty bag the
+    result is `functools.reduce(op, seq)` — any partitioning with empty partitions, any `split_every ≥ 2`
+    (for an empty bag the inner result is `none`: TypeError like `reduce(op, [])`) -/
+theorem bag_fold_noinit_eq (se : Nat) (hse : 2 ≤ se) (b : Bag α) (hb : den b ≠ []) :
+    foldNoInitB op op se b = some (pyReduce op (den b)) := by
+  have hsome : (foldNoInitB op op se b).isSome := reductionIx_isSome _ _ se hse b
   obtain ⟨r, hr⟩ := Option.isSome_iff_exists.mp hsome
-  have hgen := reductionIx_inv_gen (fun (q : List Int) (r : Option Int) => q ≠ [] ∧ r = pyReduce max q) _ _ b ?_ ?_ se r hr
+  have hgen := reductionIx_inv_gen (fun (q : List α) (r : Option α) => q ≠ [] ∧ r = pyReduce op q) _ _ b ?_ ?_ se r hr
   · rcases hgen with ⟨_, _, hnil⟩ | ⟨_, hr'⟩
     · exact absurd hnil hb
     · rw [hr, hr']; rfl
@@ -597,23 +603,50 @@ theorem bag_max_eq (se : Nat) (hse : 2 ≤ se) (b : Bag Int) (hb : den b ≠ [])
         | cons _ _ => simp at h1
     · exact h
   · intro d i qs rs hrs hall
-    show qs.flatten ≠ [] ∧ optReduce max rs = pyReduce max qs.flatten
-    have key : ∃ vs m, rs.mapM id = some vs ∧ pyReduce max vs = some m ∧ pyReduce max qs.flatten = some m ∧
+    show qs.flatten ≠ [] ∧ optReduce op rs = pyReduce op qs.flatten
+    have key : ∃ vs m, rs.mapM id = some vs ∧ pyReduce op vs = some m ∧ pyReduce op qs.flatten = some m ∧
         qs.flatten ≠ [] := by
       induction hall with
       | nil => exact absurd rfl hrs
       | @cons q r qs' rs' hqr hrest ih =>
         obtain ⟨hq, rfl⟩ := hqr
-        obtain ⟨m₁, hm₁⟩ := pyReduce_ne_nil q hq
+        obtain ⟨m₁, hm₁⟩ := pyReduce_ne_nil op q hq
         cases hrest with
         | nil => exact ⟨[m₁], m₁, by simp [List.mapM_cons, hm₁], rfl, by simpa using hm₁, by simpa using hq⟩
         | cons hqr' hrest' =>
           obtain ⟨vs, m, hv, hvm, hfm, _⟩ := ih (by simp)
-          refine ⟨m₁ :: vs, max m₁ m, by simp [List.mapM_cons, hm₁, hv], pyReduce_max_cons m₁ vs m hvm, ?_, by simp [hq]⟩
+          refine ⟨m₁ :: vs, op m₁ m, by simp [List.mapM_cons, hm₁, hv], pyReduce_cons op assoc m₁ vs m hvm, ?_, by simp [hq]⟩
           rw [List.flatten_cons]
-          exact pyReduce_max_append q _ m₁ m hm₁ hfm
+          exact pyReduce_append op assoc q _ m₁ m hm₁ hfm
     obtain ⟨vs, m, hv, hvm, hfm, hne⟩ := key
     exact ⟨hne, by simp only [optReduce, hv, hvm, hfm]⟩
+
+end NoInit
+
+/-- **`max`** / **`min`** of a non-empty bag are `max(seq)` / `min(seq)` -/
+theorem bag_max_eq (se : Nat) (hse : 2 ≤ se) (b : Bag Int) (hb : den b ≠ []) :
+    maxB se b = some (pyReduce max (den b)) :=
+  bag_fold_noinit_eq max (by intro a b c; omega) se hse b hb
+
+theorem bag_min_eq (se : Nat) (hse : 2 ≤ se) (b : Bag Int) (hb : den b ≠ []) :
+    minB se b = some (pyReduce min (den b)) :=
+  bag_fold_noinit_eq min (by intro a b c; omega) se hse b hb
+
+theorem any_flatten (qs : List (List Bool)) : (qs.map fun p => p.any id).any id = qs.flatten.any id := by
+  induction qs with
+  | nil => rfl
+  | cons q qs ih => simp only [List.map_cons, List.any_cons, id, List.flatten_cons, List.any_append, ih]
+
+theorem all_flatten (qs : List (List Bool)) : (qs.map fun p => p.all id).all id = qs.flatten.all id := by
+  induction qs with
+  | nil => rfl
+  | cons q qs ih => simp only [List.map_cons, List.all_cons, id, List.flatten_cons, List.all_append, ih]
+
+/-- `any` / `all` -/
+theorem bag_any_eq (se : Nat) (hse : 2 ≤ se) (b : Bag Bool) : anyB se b = some ((den b).any id) :=
+  bag_reduction_eq _ _ any_flatten se hse b
+theorem bag_all_eq (se : Nat) (hse : 2 ≤ se) (b : Bag Bool) : allB se b = some ((den b).all id) :=
+  bag_reduction_eq _ _ all_flatten se hse b
 
 example : maxB 2 [[], [3, -1], [], [7], [2]] = some (some 7) := by decide
 example : maxB 2 [[], []] = some none := by decide
